@@ -1,4 +1,4 @@
-import ElkVerif.Model.Mini.Eval
+import ElkVerif.Model.Mini.Types
 /-!
 # MiniElk — type checker for the whole fragment (stages B, C, D of the soundness result)
 
@@ -324,5 +324,11 @@ def OutOk (defs : List Def) (S : List T) (L : List (Option String)) (ret : Optio
   | .thrw _ => True
   | .stuck _ => False
   | .timeout => True
+
+-- ---------------------------------------------------------------- stage A types inside `T`
+
+def BTy.toT : BTy → T | .int => .int | .bool => .bool | .str => .str
+def STy.toT : STy → T | .base b => b.toT | .nil => .nil | .opt b => .opt b.toT
+def TEnv.toB (g : TEnv) : TEnvB := g.map fun p => (p.1, p.2.toT)
 
 end Elk.Mini
